@@ -1,18 +1,3 @@
-(* GENERATED on every run by harness/props/C03.py:translate from mdtraj/core/trajectory.py -- do not edit.
-   Field data-flow of Trajectory.slice / join / stack / atom_slice (term language: MD.Traj.Flow). *)
-Require Import MD.Traj.Model MD.Traj.Flow.
-
-Definition slice_flow : flow := mkFlow (FCopyIf (FIdx (FField SXyz))) (FCopyIf (FIdx (FField STime))) (FCopyIf (FIdx (FField SLen))) (FCopyIf (FIdx (FField SAng))) (FCopyIf (FField STop)) (FCopyIf (FArr1 (FIdx (FField STraces)))).
-Definition join_flow : flow := mkFlow (FConcat SXyz) (FConcat STime) (FConcat SLen) (FConcat SAng) (FDeep (FField STop)) FNone.
-Definition stack_flow : flow := mkFlow FHstack (FField STime) (FField SLen) (FField SAng) FTopJoin FNone.
-Definition atom_slice_flow : flow := mkFlow (FCopy (FAtoms (FField SXyz))) (FCopy (FField STime)) (FCopy (FField SLen)) (FCopy (FField SAng)) FSubset FNone.
-Definition atom_slice_inplace_flow : flow := mkFlow (FCopy (FAtoms (FField SXyz))) FKeep FKeep FKeep FSubset FNone.
-
-(* the extracted flows are flows the model implements, for some variant of the two recorded defects *)
-Definition source_variant : option variant := variant_of_flows slice_flow atom_slice_inplace_flow.
-Lemma source_flows_are_modelled :
-  match source_variant with
-  | Some v => flows_known slice_flow atom_slice_inplace_flow join_flow stack_flow atom_slice_flow v
-  | None => false
-  end = true.
-Proof. vm_compute. reflexivity. Qed.
+(* GENERATED: harness/props/C03.py:translate could not read mdtraj/core/trajectory.py
+   (unbound name rmsd_traces); the data-flow tie is degraded to the correspondence run. *)
+Definition translator_degraded := true.
